@@ -225,7 +225,7 @@ def onEvent (s : St) (b : Book) (o : Obs) (_ : Book) : St × List Viol :=
     (s, if c.idle + b.inflight > s.maxLim + 1 then [s!"{c.idle} idle + {b.inflight} busy worker goroutines with largest limit {s.maxLim}"] else [])
   | _ => (s, [])
 
-def atEnd (p : Params) (s : St) (b : Book) (fin : Option Final) (e : EndInfo) : List Viol :=
+def atEnd (p : Params) (s : St) (b : Book) (fin : Option Final) (e : EndInfo) (tr : List Obs := []) : List Viol :=
   if !e.quiescent || e.crashed || b.crashed then [] else
   match fin with
   | some f =>
@@ -236,6 +236,13 @@ def atEnd (p : Params) (s : St) (b : Book) (fin : Option Final) (e : EndInfo) : 
       (if f.counts.idle < 1 && busy < f.counts.conc.toNat then [s!"running and quiescent with {f.counts.idle} idle workers"] else [])
       ++ (if f.counts.idle.toNat + busy > max s.maxLim 1 then [s!"{f.counts.idle} idle + {busy} busy worker goroutines exceed the largest limit {s.maxLim}"] else [])
       ++ (if f.liveLib > expected then [s!"{f.liveLib} library goroutines alive while running, expected at most {expected} (leak)"] else [])
+      ++ (let ticksAtRest := (tr.reverse.takeWhile (fun o => match o with | .exit .. => false | .enter .. => false | .tick => false | .ret .. => false | .call .. => false | _ => true)).filter (fun o => match o with | .qtick => true | _ => false) |>.length
+          let target := max (f.counts.conc.toNat * (min p.minIdle 100) / 100) 1
+          -- ticks that fire while nobody can run: time passes at rest. Two of them after the last use make every
+          -- idle worker beyond the minimum expired, and the pass of the third retires it
+          if p.expiry && ticksAtRest ≥ 3 && f.counts.idle.toNat > target then
+            [s!"{f.counts.idle} idle workers after {ticksAtRest} expiry ticks at rest; the minimum for limit {f.counts.conc} and ratio {p.minIdle}% is {target}: idle workers beyond the minimum are not retired"]
+          else [])
       ++ (if f.liveLib < expected then [s!"{f.liveLib} library goroutines alive while running with {f.counts.idle} idle and {busy} busy workers, expected {expected}: a worker in the pool has no goroutine"] else [])
     | some .paused =>
       (if f.liveLib > expected then [s!"{f.liveLib} library goroutines alive while paused, expected at most {expected} (leak)"] else [])
@@ -246,7 +253,7 @@ def atEnd (p : Params) (s : St) (b : Book) (fin : Option Final) (e : EndInfo) : 
 
 def check (p : Params) (tr : List Obs) (e : EndInfo) : List Viol :=
   let (s, b, vs) := foldCheck ({ maxLim := p.conc } : St) onEvent tr
-  vs ++ atEnd p s b (finalOf tr) e
+  vs ++ atEnd p s b (finalOf tr) e tr
   -- retiring idle workers (and TunePool) must not lose or strand a job: with an idle expiry
   -- configured, C01's "every accepted job is started" is part of this property
   ++ (if p.expiry then (C01.check p tr e).map (fun v => "with idle-worker expiry: " ++ v) else [])
@@ -315,6 +322,14 @@ def check (p : Params) (tr : List Obs) (e : EndInfo) : List Viol :=
   vs ++ atEnd p s b (finalOf tr) e ++ (if e.crashed then ["process crashed"] else [])
 end C08
 
+-- ===================================================================== C09 (pending jobs survive and are processed after Resume/Restart)
+namespace C09b
+def check (p : Params) (tr : List Obs) (e : EndInfo) : List Viol :=
+  if !tr.any (fun o => match o with | .ret _ _ c (.life .none _) => isResumer c | _ => false) then [] else
+  ((C01.check p tr e).filter (fun v => (v.splitOn "never started").length > 1)).map
+    (fun v => "after Resume/Restart the pending jobs must be processed: " ++ v)
+end C09b
+
 -- ===================================================================== C10 (batch part)
 namespace C10b
 /-- a batch submitted to a queue whose Close() has returned is rejected as a whole: every item is
@@ -368,7 +383,7 @@ def check (p : Params) (tr : List Obs) (e : EndInfo) : List Viol :=
 end C07
 
 def allChecks2 : List (String × (Params → List Obs → EndInfo → List Viol)) :=
-  allChecks ++ [("C04", C04.check), ("C15", C15.check), ("C14", C14.check), ("C18", C18.check), ("C08", C08.check), ("C10", C10b.check), ("C07", C07.check)]
+  allChecks ++ [("C04", C04.check), ("C15", C15.check), ("C14", C14.check), ("C18", C18.check), ("C08", C08.check), ("C10", C10b.check), ("C09", C09b.check), ("C07", C07.check)]
 
 end Spec
 end VarmqVerif
